@@ -515,11 +515,23 @@ func (v *view) build(st simcore.Step, sender int) []sdk.Msg {
 		// lock shares of the superfluid-enabled pool (pool 1, listed in the superfluid
 		// genesis) for the unbonding period and delegate them
 		d := gammtypes.GetPoolShareDenom(1)
+		val, _ := pick(w.g.ValAddrs, x0)
+		if x2%3 == 0 {
+			// delegate an existing lock of these shares instead: its duration may exceed the unbonding time
+			var free []lockuptypes.PeriodLock
+			for _, l := range v.sfLocks(sender) {
+				if !l.IsUnlocking() && w.A.App.SuperfluidKeeper.GetLockIdIntermediaryAccountConnection(v.ctx, l.ID).Empty() {
+					free = append(free, l)
+				}
+			}
+			if l, ok := pick(free, x1); ok {
+				return one(&superfluidtypes.MsgSuperfluidDelegate{Sender: me, LockId: l.ID, ValAddr: val.String()})
+			}
+		}
 		amt := bp(v.bal(sender, d), x1%5000+1)
 		if !amt.IsPositive() {
 			return nil
 		}
-		val, _ := pick(w.g.ValAddrs, x0)
 		return one(&superfluidtypes.MsgLockAndSuperfluidDelegate{Sender: me, Coins: sdk.NewCoins(sdk.NewCoin(d, amt)), ValAddr: val.String()})
 	case "sf-undelegate":
 		sf := v.sfLocks(sender)
